@@ -754,7 +754,11 @@ impl RADAU {
                     }
                 }
 
-                if last {
+                // The accepted steps can end within rounding of xend without `last` being set
+                // (e.g. max_step dividing the interval): the interval is covered, and a further
+                // step of about one ulp would only trip the step-size guard.
+                let span_scale = x.abs().max(xend.abs());
+                if last || (span_scale.is_finite() && (xend - x).abs() <= 4.0 * Float::EPSILON * span_scale) {
                     h = hnew;
                     status = Status::Success;
                     break 'main;
